@@ -1,10 +1,14 @@
 (* C06 -- batching, broadcasting and views are transparent; pure operations never mutate their
    inputs; the patching done by retain_ltype / func.jacrev is undone on exit.
-   Statements only; models in Model/Broadcast.v, Model/Patch.v; proofs in Proofs/Broadcast.v, Proofs/Patch.v. *)
+   Statements only; models in Model/Broadcast.v, Model/Patch.v; proofs in Proofs/Broadcast.v, Proofs/Patch.v,
+   Proofs/Broadcast2.v (index/position bijection, broadcast rule, matrix(), Retr), Proofs/Broadcast3.v (shape-only
+   torch functions written as index maps: [raw], [tabulate], [reindex], [t_select] ... [t_stack], [sop]),
+   Proofs/Patch2.v (call trace of retain_ltype, views replaced by copies, guarded geometry functions). *)
 From Coq Require Import String.
 From Coq Require Import List Arith Bool PeanoNat ZArith QArith.
 Import ListNotations.
 From PV Require Import Base.Num Model.LieGroup Model.Broadcast Model.Patch Proofs.Broadcast Proofs.Patch.
+From PV Require Import Proofs.Broadcast2 Proofs.Broadcast3 Proofs.Patch2.
 Close Scope Q_scope.
 
 (* ---------- 1. flatten-expand, item-wise kernel, un-flatten = the kernel at every multi-index ----------
@@ -160,6 +164,340 @@ Theorem C06_write_check_old_reports :
   (forall has_M n, In 2 (may_mutate D 4 (p_cg_old D K Cnd true has_M (S n)))).
 Proof. intros D K Cnd. split; [apply quat2unit_old_reported | split; [apply matching_old_reported | intros; apply cg_old_x0_reported]]. Qed.
 
+
+(* ================================================================================================ *)
+(* Second round: clauses that were covered by the tie only, for ALL shapes / bodies / programs      *)
+(* ================================================================================================ *)
+
+(* ---------- 1'. batching ---------- *)
+(* "the item at every valid multi-index" describes every stored item: flat positions and valid multi-indices
+   correspond one to one (so the spec theorems above determine the whole result) *)
+Theorem C06_every_position_is_one_index : forall (T : shape) (k : nat), k < numel T ->
+  exists i, valid_idx T i /\ ravel T i = k /\ forall j, valid_idx T j -> ravel T j = k -> j = i.
+Proof. exact positions_are_indices. Qed.
+Theorem C06_tensor_determined_by_items : forall (E : Type) (dE : E) (t u : tensor E), wf t -> wf u ->
+  tshape t = tshape u -> tdim t = tdim u ->
+  (forall i, valid_idx (tshape t) i -> tget dE t i = tget dE u i) -> t = u.
+Proof. exact @tensor_ext. Qed.
+
+(* the property's wording, literally: the batched operation exists, and at every multi-index i of the broadcast lshape
+   its item is what the SAME operation (same pipeline: broadcast_inputs, kernel, view) returns on the two un-batched
+   LieTensors (lshape ()) holding the items that PyTorch broadcasting pairs at i *)
+Theorem C06_batched_is_item_by_item : forall (A B C : Type) (dA : A) (dB : B) (dC : C) (op : A -> B -> C) (d : nat)
+    (x : tensor A) (y : tensor B) (o : shape),
+  wf x -> wf y -> tdim x <> 0 -> tdim y <> 0 -> broadcast_shapes (tshape x) (tshape y) = Some o ->
+  exists r, lie_binop dA dB op d d x y = Some r /\ tshape r = o /\ tdim r = d /\ wf r /\
+    forall i, valid_idx o i ->
+      lie_binop dA dB op d d (mkT [] (tdim x) [tget dA x (bidx (tshape x) i)]) (mkT [] (tdim y) [tget dB y (bidx (tshape y) i)])
+      = Some (mkT [] (tdim r) [tget dC r i]).
+Proof. intros A B C dA dB dC. exact (batched_is_itemwise dA dB dC). Qed.
+
+(* torch.broadcast_shapes as modelled IS the documented rule: dimensions are compared from the right (a missing
+   dimension counts as 1); the shapes broadcast iff in every dimension the sizes are equal or one of them is 1, and
+   the result has the larger rank and in every dimension the size that is not 1 (0 is an ordinary size) *)
+Theorem C06_broadcast_shapes_rule : forall a b : shape,
+  match broadcast_shapes a b with
+  | Some o => length o = Nat.max (length a) (length b) /\
+              forall k, let x := nth k (rev a) 1 in let y := nth k (rev b) 1 in
+                        (x = y \/ x = 1 \/ y = 1) /\ nth k (rev o) 1 = (if x =? 1 then y else x)
+  | None => exists k, let x := nth k (rev a) 1 in let y := nth k (rev b) 1 in ~ (x = y \/ x = 1 \/ y = 1)
+  end.
+Proof. exact broadcast_shapes_rule. Qed.
+Theorem C06_broadcast_shapes_laws : forall a b : shape,
+  broadcast_shapes a b = broadcast_shapes b a /\ broadcast_shapes a a = Some a /\
+  broadcast_shapes a [] = Some a /\ broadcast_shapes [] a = Some a.
+Proof.
+  intros a b. split; [apply broadcast_shapes_comm|]. split; [apply broadcast_shapes_same|apply broadcast_shapes_scalar].
+Qed.
+(* the operand index used for output index i, dimension by dimension: operand dimension k is output dimension
+   (rank difference) + k; index 0 where the operand has size 1, the output index otherwise *)
+Theorem C06_source_index_by_dimension : forall (s : shape) (i : list nat) (k : nat),
+  length s <= length i -> k < length s ->
+  nth k (bidx s i) 0 = if nth k s 1 =? 1 then 0 else nth (length i - length s + k) i 0.
+Proof. exact bidx_nth. Qed.
+
+(* the table [bcast_map] that the tie evaluates and compares with torch's own broadcasting for every pair of lshapes is,
+   in closed form, the pair of flat source positions given by [bidx] -- the index map of the theorems above *)
+Theorem C06_tie_table_is_the_index_map : forall lx ly : shape,
+  match broadcast_shapes lx ly with
+  | Some o => bcast_map lx ly = Some (o, map (fun i => (ravel lx (bidx lx i), ravel ly (bidx ly i))) (indices o))
+  | None => bcast_map lx ly = None
+  end.
+Proof. exact bcast_map_closed_form. Qed.
+
+(* X.matrix() as coded -- X.unsqueeze(-2).Act(I.view([1]*(X.dim()-1) + [n, n])).transpose(-1,-2), n = 3 for SO3
+   and 4 otherwise -- is, for EVERY lshape (0 extents and rank 0 included), every group and any number type, the
+   item-wise matrix of Model/LieGroup.v applied to every item, same lshape, n*n entries per item *)
+Theorem C06_matrix_batched : forall (F : Type) (NF : Num F) (g : nat) (x : tensor (list F)),
+  wf x -> tdim x <> 0 ->
+  lt_matrix g x = Some (lie_unop (g_matrix g) ((match g with 0 => 3 | _ => 4 end) * (match g with 0 => 3 | _ => 4 end)) x).
+Proof. intros F NF. exact lt_matrix_spec. Qed.
+(* Retr(X, a) = a.Exp() * X for any item-wise Exp kernel: the product Exp(a[bidx i]) * X[bidx i] at every multi-index *)
+Theorem C06_retr_batched : forall (F : Type) (NF : Num F) g (expk : list F -> list F) (x a : tensor (list F)),
+  wf x -> wf a -> tdim x <> 0 ->
+  binop_spec [] [] [] (fun ai xi => g_mul g (expk ai) xi) (gdim g) a x (lt_mul g (lie_unop expk (gdim g) a) x).
+Proof. intros F NF. exact retr_batched. Qed.
+(* the last dimension every operation produces is the dimension of the ltype it is documented to return
+   (op codes of Model/Broadcast.v; None = plain torch.Tensor) *)
+Theorem C06_result_ltype_dimension : forall g,
+  option_map dimension (result_ltype g 0) = Some (gdim g) /\ option_map dimension (result_ltype g 1) = Some (gdim g) /\
+  option_map dimension (result_ltype g 11) = Some (gdim g) /\ option_map dimension (result_ltype g 12) = Some (gdim g) /\
+  option_map dimension (result_ltype g 6) = Some 4 /\
+  option_map dimension (result_ltype g 9) = Some (adim g) /\ option_map dimension (result_ltype g 10) = Some (adim g) /\
+  option_map dimension (result_ltype g 13) = Some (adim g) /\ option_map dimension (result_ltype g 14) = Some (adim g) /\
+  result_ltype g 2 = None /\ result_ltype g 3 = None /\ result_ltype g 4 = None /\
+  result_ltype g 7 = None /\ result_ltype g 8 = None.
+Proof. exact result_ltype_dimension. Qed.
+(* instances: a (2,1) x (3,) product of SO3 items over Q; matrix() of empty batches (the shapes of defect C06-1) *)
+Example C06_batched_examples :
+  option_map (fun r => (tshape r, tdim r, length (titems r)))
+     (lt_mul 0 (mkT [2; 1] 4 [[0; 0; 0; 1]; [1; 0; 0; 0]]%Q) (mkT [3] 4 [[0; 0; 0; 1]; [0; 1; 0; 0]; [0; 0; 1; 0]]%Q))
+    = Some ([2; 3], 4, 6) /\
+  lt_matrix 1 (mkT [0; 2] 7 ([] : list (list Q))) = Some (mkT [0; 2] 16 []) /\
+  lt_matrix 0 (mkT [2; 0] 4 ([] : list (list Q))) = Some (mkT [2; 0] 9 []) /\
+  option_map titems (lt_matrix 0 (mkT [] 4 [[0; 0; 0; 1]]%Q)) = Some [[1; 0; 0; 0; 1; 0; 0; 0; 1]%Q].
+Proof. repeat split; vm_compute; reflexivity. Qed.
+
+(* ---------- 2'. shape-only torch functions, every shape ---------- *)
+(* the wrap rule on results that keep the last dimension: for every handled name, every lshape T (rank 0 and 0
+   extents included) and any number of result tensors (split, unbind, chunk ...) every result is a LieTensor of the
+   ltype of the FIRST LieTensor among the (positional, then keyword) arguments, same shape, and no warning *)
+Theorem C06_wrap_keeps_ltype_every_shape : forall name lt rest lts kws (Ts : list shape),
+  handled name = true -> lts ++ kws = lt :: rest ->
+  torch_function (Some name) (Some (map (fun T => LPlain (T ++ [dimension lt])) Ts)) lts kws =
+  TFData (map (fun T => LLie (Some lt) (T ++ [dimension lt])) Ts) (map (fun _ => false) Ts).
+Proof. exact wrap_keeps_ltype. Qed.
+(* the 'Tensor Shape Invalid' warning is issued exactly when the last dimension is not the ltype's (or is missing) *)
+Theorem C06_wrap_warns_iff_last_dimension_changed : forall name lt rest lts kws shp,
+  handled name = true -> lts ++ kws = lt :: rest ->
+  torch_function (Some name) (Some [LPlain shp]) lts kws =
+  TFData [LLie (Some lt) shp] [match rev shp with [] => true | d :: _ => negb (d =? dimension lt) end].
+Proof. exact wrap_warns_iff. Qed.
+(* a function object without __name__ is never wrapped *)
+Theorem C06_wrap_nameless : forall leaves lts kws,
+  torch_function None (Some leaves) lts kws = TFData leaves (map (fun _ => false) leaves).
+Proof. reflexivity. Qed.
+(* several LieTensors of different ltypes among the arguments: only the first one counts, whatever the others are *)
+Theorem C06_wrap_first_lietensor_only : forall name data lt lts kws lts' kws',
+  torch_function name data (lt :: lts) kws = torch_function name data (lt :: lts') kws' /\
+  torch_function name data [] (lt :: kws) = torch_function name data [lt] kws'.
+Proof. exact wrap_first_only. Qed.
+Example C06_wrap_mixed_ltypes :
+  torch_function (Some "cat"%string) (Some [LPlain [6; 4]]) [SO3_t; rxso3_t] [] = TFData [LLie (Some SO3_t) [6; 4]] [false] /\
+  torch_function (Some "cat"%string) (Some [LPlain [6; 4]]) [rxso3_t; SO3_t] [] = TFData [LLie (Some rxso3_t) [6; 4]] [false] /\
+  torch_function (Some "view_as"%string) (Some [LPlain [6; 4]]) [SO3_t] [rxso3_t] = TFData [LLie (Some SO3_t) [6; 4]] [false] /\
+  torch_function (Some "reshape"%string) (Some [LPlain [24]]) [SO3_t] [] = TFData [LLie (Some SO3_t) [24]] [true] /\
+  forallb handled ["__getitem__"; "view"; "reshape"; "permute"; "cat"; "stack"; "split"; "clone"; "detach"; "to";
+                   "expand"; "gather"; "scatter"; "index_select"; "unbind"; "transpose"; "squeeze"; "unsqueeze"]%string = true.
+Proof. repeat split; reflexivity. Qed.
+
+(* "holding exactly the selected items".  A LieTensor of lshape s and item size d is the torch tensor [raw x] of shape
+   s ++ [d].  THE GENERIC STATEMENT: a result of shape T ++ [d] whose entry (i, c) is entry c of an item [it i] of size d
+   -- i.e. built by an index map that leaves the last coordinate alone -- is the raw tensor of the LieTensor of lshape T
+   with exactly the items [it i]; for any lshape T *)
+Theorem C06_last_dimension_intact_selects_items : forall (E : Type) (dE : E) (T : shape) (d : nat)
+    (it : list nat -> list E) (g : list nat -> E),
+  (forall i, valid_idx T i -> length (it i) = d) ->
+  (forall i c, valid_idx T i -> c < d -> g (i ++ [c]) = nth c (it i) dE) ->
+  tabulate (T ++ [d]) 1 g = raw (tabulate T d it).
+Proof. exact @tabulate_raw. Qed.
+(* one source and an index map sigma that acts on the batch part only: the function applied to the raw tensor is the
+   raw tensor of the same function applied item-wise, whose item at i is the source item at (phi i) *)
+Theorem C06_reindex_selects_items : forall (E : Type) (dE : E) (x : tensor (list E)) (T : shape) (phi sigma : list nat -> list nat),
+  items_ok x ->
+  (forall i, valid_idx T i -> valid_idx (tshape x) (phi i)) ->
+  (forall i c, valid_idx T i -> c < tdim x -> sigma (i ++ [c]) = phi i ++ [c]) ->
+  reindex dE (T ++ [tdim x]) sigma (raw x) = raw (reindex [] T phi x) /\
+  items_ok (reindex [] T phi x) /\
+  forall i, valid_idx T i -> tget [] (reindex [] T phi x) i = tget [] x (phi i).
+Proof. exact @reindex_raw. Qed.
+(* the torch functions written as index maps (Proofs/Broadcast3.v), dimension arguments addressing batch dimensions:
+   integer indexing / select / unbind pieces *)
+Theorem C06_select_items : forall (E : Type) (dE : E) (x : tensor (list E)), items_ok x -> forall k m,
+  k < length (tshape x) -> m < nth k (tshape x) 0 ->
+  t_select dE k m (raw x) = raw (t_select [] k m x) /\ items_ok (t_select [] k m x) /\
+  forall i, valid_idx (del_at k (tshape x)) i -> tget [] (t_select [] k m x) i = tget [] x (ins_at k m i).
+Proof. exact @select_raw. Qed.
+(* narrow / split and chunk pieces / slices with a step / index_select / index tensors / flip / roll / repeat and tile
+   along k / gather and take_along_dim with an index constant along the last dimension: position i reads h(i) in dim k *)
+Theorem C06_remap_items : forall (E : Type) (dE : E) (x : tensor (list E)), items_ok x -> forall k e (h : list nat -> nat),
+  k < length (tshape x) -> (forall i, valid_idx (set_at k e (tshape x)) i -> h i < nth k (tshape x) 0) ->
+  t_remap dE k e (fun j => h (removelast j)) (raw x) = raw (t_remap [] k e h x) /\ items_ok (t_remap [] k e h x) /\
+  forall i, valid_idx (set_at k e (tshape x)) i -> tget [] (t_remap [] k e h x) i = tget [] x (set_at k (h i) i).
+Proof. exact @remap_raw. Qed.
+Theorem C06_unsqueeze_items : forall (E : Type) (dE : E) (x : tensor (list E)), items_ok x -> forall k,
+  k <= length (tshape x) ->
+  t_unsqueeze dE k (raw x) = raw (t_unsqueeze [] k x) /\ items_ok (t_unsqueeze [] k x) /\
+  forall i, valid_idx (ins_at k 1 (tshape x)) i -> tget [] (t_unsqueeze [] k x) i = tget [] x (del_at k i).
+Proof. exact @unsqueeze_raw. Qed.
+(* expand / expand_as to T ++ [d]; its index map is the [bidx] of the broadcast theorems, and it agrees with the
+   stride-0 view of Model/Broadcast.v *)
+Theorem C06_expand_items : forall (E : Type) (dE : E) (x : tensor (list E)), items_ok x -> forall T,
+  length (tshape x) <= length T -> compat (pad (length T) (tshape x)) T ->
+  t_expand dE (T ++ [tdim x]) (raw x) = raw (t_expand [] T x) /\ items_ok (t_expand [] T x) /\
+  forall i, valid_idx T i -> tget [] (t_expand [] T x) i = tget [] x (bidx (tshape x) i).
+Proof. exact @expand_raw. Qed.
+Theorem C06_expand_is_the_modelled_view : forall (A : Type) (dA : A) (x : tensor A) T st,
+  tdim x <> 0 -> expand_strides (tshape x) T = Some st -> flat_expand dA x T = Some (titems (t_expand dA T x)).
+Proof. exact @flat_expand_is_t_expand. Qed.
+(* view / reshape / view_as (contiguous data) to T ++ [d]: item number n stays item number n *)
+Theorem C06_reshape_items : forall (E : Type) (x : tensor (list E)), items_ok x -> forall T,
+  numel T = numel (tshape x) ->
+  t_reshape (T ++ [tdim x]) (raw x) = raw (t_reshape T x) /\ items_ok (t_reshape T x) /\
+  forall i, valid_idx T i -> tget [] (t_reshape T x) i = tget [] x (unravel (tshape x) (ravel T i)).
+Proof. exact @reshape_raw. Qed.
+(* permute (transpose, swapaxes, swapdims, movedim, moveaxis) with the last dimension kept last *)
+Theorem C06_permute_items : forall (E : Type) (dE : E) (x : tensor (list E)), items_ok x -> forall p,
+  is_perm p (length (tshape x)) ->
+  t_permute dE (p ++ [length (tshape x)]) (raw x) = raw (t_permute [] p x) /\ items_ok (t_permute [] p x) /\
+  forall i, valid_idx (map (fun m => nth m (tshape x) 0) p) i -> tget [] (t_permute [] p x) i = tget [] x (unperm p i).
+Proof. exact @permute_raw. Qed.
+(* cat / concat along a batch dimension: the items of x followed (in dimension k) by the items of y *)
+Theorem C06_cat_items : forall (E : Type) (dE : E) (x y : tensor (list E)) k e2,
+  items_ok x -> items_ok y -> tdim y = tdim x -> k < length (tshape x) -> tshape y = set_at k e2 (tshape x) ->
+  t_cat dE k (raw x) (raw y) = raw (t_cat [] k x y) /\ items_ok (t_cat [] k x y) /\
+  forall i, valid_idx (set_at k (nth k (tshape x) 0 + e2) (tshape x)) i ->
+    tget [] (t_cat [] k x y) i =
+    if nth k i 0 <? nth k (tshape x) 0 then tget [] x i else tget [] y (set_at k (nth k i 0 - nth k (tshape x) 0) i).
+Proof. exact @cat_raw. Qed.
+(* stack at a batch position: item (.., j, ..) is the item of operand j *)
+Theorem C06_stack_items : forall (E : Type) (dE : E) (x0 : tensor (list E)) (xs : list (tensor (list E))) k,
+  Forall (fun x => items_ok x /\ tshape x = tshape x0 /\ tdim x = tdim x0) xs -> k <= length (tshape x0) ->
+  t_stack dE k (raw x0) (map raw xs) = raw (t_stack [] k x0 xs) /\ items_ok (t_stack [] k x0 xs) /\
+  forall i, valid_idx (ins_at k (length xs) (tshape x0)) i ->
+    tget [] (t_stack [] k x0 xs) i = tget [] (nth (nth k i 0) xs x0) (del_at k i).
+Proof. exact @stack_raw. Qed.
+(* the scatter family (select_scatter, index_copy, index_put, scatter with an index that does not depend on the position
+   inside an item): result = src[phi i] where sel i holds, x[i] elsewhere; selection and index map act on the batch part *)
+Theorem C06_overwrite_items : forall (E : Type) (dE : E) (x src : tensor (list E)) (sel : list nat -> bool) (phi : list nat -> list nat),
+  items_ok x -> items_ok src -> tdim src = tdim x ->
+  (forall i, valid_idx (tshape x) i -> sel i = true -> valid_idx (tshape src) (phi i)) ->
+  t_overwrite dE (fun j => sel (removelast j)) (fun j => phi (removelast j) ++ [last j 0]) (raw x) (raw src)
+    = raw (t_overwrite [] sel phi x src) /\
+  items_ok (t_overwrite [] sel phi x src) /\
+  forall i, valid_idx (tshape x) i ->
+    tget [] (t_overwrite [] sel phi x src) i = if sel i then tget [] src (phi i) else tget [] x i.
+Proof. exact @overwrite_raw. Qed.
+Theorem C06_select_scatter_items : forall (E : Type) (dE : E) (x src : tensor (list E)) k m,
+  items_ok x -> items_ok src -> tdim src = tdim x -> tshape src = del_at k (tshape x) ->
+  let sel := fun i => nth k i 0 =? m in
+  t_overwrite dE (fun j => sel (removelast j)) (fun j => del_at k (removelast j) ++ [last j 0]) (raw x) (raw src)
+    = raw (t_overwrite [] sel (del_at k) x src) /\
+  forall i, valid_idx (tshape x) i ->
+    tget [] (t_overwrite [] sel (del_at k) x src) i = if nth k i 0 =? m then tget [] src (del_at k i) else tget [] x i.
+Proof. exact @select_scatter_raw. Qed.
+(* chains of any length of such calls (X[1].unsqueeze(0).expand(4,3).permute(1,0) ...), on every shape, and the wrap
+   rule on the result: the raw result is the raw tensor of the item-level result r, which comes back as a LieTensor of
+   the argument's ltype with lshape (tshape r) and no warning *)
+Theorem C06_shape_only_chain : forall (E : Type) (dE : E) (ops : list sop) (x : tensor (list E)) name lt rest lts kws,
+  items_ok x -> ops_ok ops x -> handled name = true -> lts ++ kws = lt :: rest -> tdim x = dimension lt ->
+  let r := run_ops [] ops x in
+  run_ops dE (lift_ops ops x) (raw x) = raw r /\ items_ok r /\
+  torch_function (Some name) (Some [LPlain (tshape (raw r))]) lts kws = TFData [LLie (Some lt) (tshape r ++ [dimension lt])] [false].
+Proof.
+  intros E dE ops x name lt rest lts kws OK O H El Dx r. destruct (ops_raw dE ops x OK O) as (A & B & C).
+  split; [exact A|]. split; [exact B|]. exact (shape_only_result name lt rest lts kws x r H El Dx C).
+Qed.
+Example C06_shape_only_chain_example :
+  let x := tabulate [2; 3] 4 (fun i => map (fun c => 100 * nth 0 i 0 + 10 * nth 1 i 0 + c) (seq 0 4)) in
+  let ops := [OSelect 0 1; OUnsqueeze 0; OExpand [4; 3]; OPermute [1; 0]] in
+  items_ok x /\ ops_ok ops x /\ tshape (run_ops [] ops x) = [3; 4] /\
+  tget [] (run_ops [] ops x) [2; 3] = [120; 121; 122; 123] /\
+  run_ops 0 (lift_ops ops x) (raw x) = raw (run_ops [] ops x) /\
+  torch_function (Some "permute"%string) (Some [LPlain (tshape (raw (run_ops [] ops x)))]) [SO3_t] [] = TFData [LLie (Some SO3_t) [3; 4; 4]] [false].
+Proof. exact chain_example. Qed.
+
+(* instances of the other functions on the same X: X.narrow(1, 1, 2), X.view(3, 2, 4), cat([X, X], 0), stack([X, X], 1),
+   X.select_scatter(X[1], 0, 0); raw-tensor results = raw of item-level results, and a selected item *)
+Example C06_shape_only_instances :
+  let x := tabulate [2; 3] 4 (fun i => map (fun c => 100 * nth 0 i 0 + 10 * nth 1 i 0 + c) (seq 0 4)) in
+  let x1 := t_select [] 0 1 x in
+  t_remap 0 1 2 (fun j => 1 + nth 1 (removelast j) 0) (raw x) = raw (t_remap [] 1 2 (fun i => 1 + nth 1 i 0) x) /\
+  tget [] (t_remap [] 1 2 (fun i => 1 + nth 1 i 0) x) [1; 1] = [120; 121; 122; 123] /\
+  t_reshape [3; 2; 4] (raw x) = raw (t_reshape [3; 2] x) /\ tget [] (t_reshape [3; 2] x) [2; 1] = [120; 121; 122; 123] /\
+  t_cat 0 0 (raw x) (raw x) = raw (t_cat [] 0 x x) /\ tget [] (t_cat [] 0 x x) [3; 2] = [120; 121; 122; 123] /\
+  t_stack 0 1 (raw x) [raw x; raw x] = raw (t_stack [] 1 x [x; x]) /\ tshape (t_stack [] 1 x [x; x]) = [2; 2; 3] /\
+  t_overwrite 0 (fun j => nth 0 (removelast j) 0 =? 0) (fun j => del_at 0 (removelast j) ++ [last j 0]) (raw x) (raw x1)
+    = raw (t_overwrite [] (fun i => nth 0 i 0 =? 0) (del_at 0) x x1) /\
+  tget [] (t_overwrite [] (fun i => nth 0 i 0 =? 0) (del_at 0) x x1) [0; 2] = [120; 121; 122; 123].
+Proof. repeat split; vm_compute; reflexivity. Qed.
+
+(* ---------- 3'. retain_ltype: what the calls inside see ---------- *)
+(* for EVERY body: each call through a patched attribute goes through exactly (layers before entry) + 1 + (number of
+   enclosing nested contexts) wrappers -- in particular after a nested context has been left the calls go through the
+   enclosing context's wrapper again, not the torch original; the trace stops at the first exception (in the model's
+   body language an exception propagates to the outermost context).  [trace_at] is computed from the body alone. *)
+Theorem C06_retain_ltype_call_trace : forall b s, sites_defined s ->
+  let '(_, raised, t) := with_retain_ltype b s in
+  (t, raised) = trace_at b (fun x => S (layers (site_val s x))).
+Proof. exact retain_ltype_trace. Qed.
+Example C06_retain_ltype_states2 : sites_defined normal /\
+  (forall x, layers (site_val pristine x) = 0 /\ layers (site_val normal x) = 0) /\
+  trace_at (BCall S_add_batch (BNest (BCall S_add_batch BRaise) (BCall S_make_dual BRet))) (fun _ => 1)
+  = ([(S_add_batch, 1); (S_add_batch, 2)], true) /\
+  trace_at (BNest (BCall S_wrap_grad BRet) (BCall S_wrap_grad BRet)) (fun _ => 1) = ([(S_wrap_grad, 2); (S_wrap_grad, 1)], false).
+Proof. split; [exact normal_defined|]. split; [exact pristine_depth|]. split; reflexivity. Qed.
+
+(* the body language extended by `try: b except: pass` then k (Proofs/Patch2.v; retain_ltype itself as in the model,
+   [embed] = the model's bodies): an exception raised any number of contexts deep may be caught by the user's function at
+   any enclosing level and execution goes on -- still every attribute and every __module__ is restored at the end, and
+   the calls made after the catch go through the wrappers of the contexts that are still open *)
+Theorem C06_retain_ltype_with_caught_exceptions : forall b s, sites_defined s ->
+  let '(s', raised, t) := xrun (XNest b XRet) s in
+  (forall k, getattr s' k = getattr s k) /\ (forall f, fmod s' f = fmod s f) /\
+  (t, raised) = xtrace_at b (fun x => S (layers (site_val s x))).
+Proof. exact retain_ltype_catching. Qed.
+Theorem C06_caught_exceptions_extend_the_model : forall b s, xrun (embed b) s = run b s.
+Proof. exact xrun_embed. Qed.
+Example C06_caught_exception_example :
+  xtrace_at (XTry (XNest (XNest (XCall S_add_batch XRaise) XRet) XRet) (XCall S_add_batch XRet)) (fun _ => 1)
+  = ([(S_add_batch, 3); (S_add_batch, 1)], false).
+Proof. reflexivity. Qed.
+
+(* ---------- 4'. non-mutation: views that are copies; guarded functions ---------- *)
+(* whether an intermediate is a view or a copy depends on the input (contiguity, dtype, need to expand): a transcription
+   proved pure with views everywhere stays pure when any of its views is replaced by a copy (kernels, read sets and
+   branch conditions are free) *)
+Theorem C06_pure_when_views_become_copies : forall (D : Type) (d0 : D) (p' p : prog D) (args : list D),
+  refines D p' p -> may_mutate D (length args) p = [] -> post_args D d0 p' args = args.
+Proof. exact pure_under_copies. Qed.
+Example C06_refines_instances : forall D K cx cy,
+  refines D (p_binop D K cx cy) (p_binop D K false false) /\ refines D (p_retr D K cx cy) (p_retr D K false false).
+Proof. intros. split; [apply binop_refines|apply retr_refines]. Qed.
+(* stronger than "the values are the same afterwards": [writes] lists the storages written DURING the run, in order
+   (it is the write set of the run: any other storage keeps its contents); a function that passes the check never
+   writes into an argument's storage at any time -- no write-and-restore, which would still bump the version counter *)
+Theorem C06_pure_functions_never_write_arguments : forall (D : Type) (d0 : D) (p : prog D) (args : list D),
+  may_mutate D (length args) p = [] ->
+  forall id, In id (writes D d0 p (fun v => v) args) -> length args <= id.
+Proof. exact never_writes_arguments. Qed.
+Theorem C06_write_set_is_the_write_set : forall (D : Type) (d0 : D) (p : prog D) env st id,
+  id < length st -> ~ In id (writes D d0 p env st) -> nth id (fst (exec D d0 p env st)) d0 = nth id st d0.
+Proof. exact unwritten_kept. Qed.
+(* homo2cart (the guard clamp_ writes into the result of abs(), not into the caller's tensor) and point2pixel (with and
+   without extrinsics), transcribed in Proofs/Patch2.v: arguments unchanged whatever the kernels compute, i.e. for
+   w = 0, signed zeros, subnormals, ... alike.  (These two transcriptions are not in the harness's effect table; the
+   purity sweep runs the functions on such special values.) *)
+Theorem C06_guarded_geometry_functions_do_not_mutate : forall (D : Type) (d0 : D) (K : nat -> list D -> D),
+  (forall X, post_args D d0 (p_homo2cart D K) [X] = [X]) /\
+  (forall e P Kc Ex, post_args D d0 (p_point2pixel D K e) [P; Kc; Ex] = [P; Kc; Ex]).
+Proof. exact geometry_pure. Qed.
+(* functions WITH a trailing underscore write into self only *)
+Example C06_underscore_functions_write_self_only : forall (D : Type) (K : nat -> list D -> D) n,
+  may_mutate D 2 (p_add_ D K) = [0] /\ (forall a, In a (may_mutate D 1 (p_cumops_ D K n)) -> a = 0).
+Proof.
+  intros D K n. split; [reflexivity|]. unfold may_mutate, p_cumops_.
+  assert (G : forall m T, T 0 = Some 0 -> forall a, In a (mut D (p_cumops_loop D K m 0) T) -> a = 0).
+  { induction m; intros T H a Ha; simpl in Ha; [contradiction|].
+    assert (E : upd (upd (upd T 10 None) 11 None) 12 None 0 = Some 0) by (unfold upd; simpl; exact H).
+    rewrite E in Ha. destruct Ha as [<-|Ha]; [reflexivity|]. eapply IHm; eauto. }
+  apply G. reflexivity.
+Qed.
+(* the check is not blind to that guard: applied to the view itself it is reported, and does overwrite caller data *)
+Theorem C06_guard_on_view_is_reported : forall (D : Type) (K : nat -> list D -> D),
+  may_mutate D 1 (p_homo2cart_guard_on_view D K) = [0].
+Proof. exact homo2cart_guard_on_view_reported. Qed.
+
 Print Assumptions C06_broadcast_inputs_spec. Print Assumptions C06_mul_batched. Print Assumptions C06_act_batched.
 Print Assumptions C06_adj_batched. Print Assumptions C06_unary_batched. Print Assumptions C06_broadcast_inputs_one_arg.
 Print Assumptions C06_wrap_decision. Print Assumptions C06_wrap_kwargs_old_refuted.
@@ -168,3 +506,21 @@ Print Assumptions C06_retain_ltype_module_rewrite_old_refuted. Print Assumptions
 Print Assumptions C06_pure_ops_do_not_mutate. Print Assumptions C06_unreported_arguments_are_kept.
 Print Assumptions C06_quat2unit_old_refuted. Print Assumptions C06_matching_time_indices_old_refuted.
 Print Assumptions C06_cg_initial_guess_old_refuted. Print Assumptions C06_write_check_old_reports.
+Print Assumptions C06_batched_is_item_by_item. Print Assumptions C06_wrap_nameless.
+Print Assumptions C06_pure_functions_never_write_arguments. Print Assumptions C06_write_set_is_the_write_set.
+Print Assumptions C06_every_position_is_one_index. Print Assumptions C06_tensor_determined_by_items.
+Print Assumptions C06_broadcast_shapes_rule. Print Assumptions C06_broadcast_shapes_laws.
+Print Assumptions C06_tie_table_is_the_index_map. Print Assumptions C06_source_index_by_dimension. Print Assumptions C06_matrix_batched. Print Assumptions C06_retr_batched.
+Print Assumptions C06_result_ltype_dimension.
+Print Assumptions C06_wrap_keeps_ltype_every_shape. Print Assumptions C06_wrap_warns_iff_last_dimension_changed.
+Print Assumptions C06_wrap_first_lietensor_only.
+Print Assumptions C06_last_dimension_intact_selects_items. Print Assumptions C06_reindex_selects_items.
+Print Assumptions C06_select_items. Print Assumptions C06_remap_items. Print Assumptions C06_unsqueeze_items.
+Print Assumptions C06_expand_items. Print Assumptions C06_expand_is_the_modelled_view. Print Assumptions C06_reshape_items.
+Print Assumptions C06_permute_items. Print Assumptions C06_cat_items. Print Assumptions C06_stack_items.
+Print Assumptions C06_overwrite_items. Print Assumptions C06_select_scatter_items.
+Print Assumptions C06_shape_only_chain.
+Print Assumptions C06_retain_ltype_call_trace. Print Assumptions C06_retain_ltype_with_caught_exceptions.
+Print Assumptions C06_caught_exceptions_extend_the_model.
+Print Assumptions C06_pure_when_views_become_copies. Print Assumptions C06_guarded_geometry_functions_do_not_mutate.
+Print Assumptions C06_guard_on_view_is_reported.
